@@ -95,9 +95,20 @@ where
             // before we can do anything else.
             if buffered_req.is_some() && server.is_some() {
                 let si = &mut server.as_mut().as_pin_mut().unwrap().0;
-                // Unwrapping is safe as the underlying sink is guaranteed not to error
-                ready!(si.poll_ready_unpin(cx)).unwrap();
-                si.start_send_unpin(buffered_req.take().unwrap()).unwrap();
+                match ready!(si.poll_ready_unpin(cx)) {
+                    Ok(()) => {
+                        // A request the replier's sink refuses (e.g. too large once tagged)
+                        // is dropped without affecting the replier
+                        if let Err(e) = si.start_send_unpin(buffered_req.take().unwrap()) {
+                            error!("Failed to send request to replier: {e:?}");
+                        }
+                    }
+                    // The replier's connection has failed, so unbind it
+                    Err(e) => {
+                        error!("Replier sink failed, unbinding replier: {e:?}");
+                        *server = None;
+                    }
+                }
             }
 
             // If we've got an error buffered already, we need to write it to the client
@@ -174,7 +185,9 @@ where
                         && buffered_req.is_none()
                         && buffered_rep.is_none() =>
                 {
-                    return Poll::Pending
+                    // Replies may still be awaiting a flush if the replier has just failed
+                    ready!(sink.as_mut().poll_flush(cx)).unwrap();
+                    return Poll::Pending;
                 }
                 // Otherwise, move on with running the stream
                 Poll::Pending => (),
@@ -197,7 +210,9 @@ where
                     // Server has finished
                     Poll::Ready(None) => {
                         let si = &mut server.as_mut().as_pin_mut().unwrap().0;
-                        ready!(si.poll_flush_unpin(cx)).unwrap();
+                        if let Err(e) = ready!(si.poll_flush_unpin(cx)) {
+                            error!("Failed to flush departing replier: {e:?}");
+                        }
                         ready!(sink.as_mut().poll_flush(cx)).unwrap();
                         *server = None;
                     }
@@ -246,7 +261,10 @@ where
 
                     if server.is_some() {
                         let si = &mut server.as_mut().as_pin_mut().unwrap().0;
-                        ready!(si.poll_flush_unpin(cx)).unwrap();
+                        if let Err(e) = ready!(si.poll_flush_unpin(cx)) {
+                            error!("Replier sink failed, unbinding replier: {e:?}");
+                            *server = None;
+                        }
                     }
 
                     // No requestor is connected, so there is nothing to wait for on this
@@ -261,11 +279,16 @@ where
 
             if server_pending && stream_pending {
                 // Unwrapping is safe as the underlying sink is guaranteed not to error
-                ready!(sink.poll_flush(cx)).unwrap();
+                ready!(sink.as_mut().poll_flush(cx)).unwrap();
 
                 if server.is_some() {
                     let si = &mut server.as_mut().as_pin_mut().unwrap().0;
-                    ready!(si.poll_flush_unpin(cx)).unwrap();
+                    if let Err(e) = ready!(si.poll_flush_unpin(cx)) {
+                        // Run the loop again so that the topic carries on without the replier
+                        error!("Replier sink failed, unbinding replier: {e:?}");
+                        *server = None;
+                        continue;
+                    }
                 }
 
                 return Poll::Pending;
